@@ -4,6 +4,7 @@ package main
 // token-name table of the gorilla/css scanner the repository's go.mod selects.
 
 import (
+	"fmt"
 	"go/ast"
 	"go/token"
 	"os"
@@ -38,136 +39,6 @@ func optBytesList(l []string, ok bool) string {
 		return "none"
 	}
 	return "some " + sanBytesList(l)
-}
-
-// mapKeys: the string keys of the composite literal assigned to package-level var `name` (sorted).
-func mapKeys(f *ast.File, name string) ([]string, bool) {
-	if f == nil {
-		return nil, false
-	}
-	for _, d := range f.Decls {
-		gd, ok := d.(*ast.GenDecl)
-		if !ok || gd.Tok != token.VAR {
-			continue
-		}
-		for _, sp := range gd.Specs {
-			vs := sp.(*ast.ValueSpec)
-			for i, n := range vs.Names {
-				if n.Name != name || i >= len(vs.Values) {
-					continue
-				}
-				cl, ok := vs.Values[i].(*ast.CompositeLit)
-				if !ok {
-					return nil, false
-				}
-				keys := []string{}
-				for _, e := range cl.Elts {
-					kv, ok := e.(*ast.KeyValueExpr)
-					if !ok {
-						return nil, false
-					}
-					k, ok := unq(kv.Key)
-					if !ok {
-						return nil, false
-					}
-					keys = append(keys, k)
-				}
-				sort.Strings(keys)
-				return keys, true
-			}
-		}
-	}
-	return nil, false
-}
-
-func varSrc(f *ast.File, name string) *string {
-	if f == nil {
-		return nil
-	}
-	for _, d := range f.Decls {
-		gd, ok := d.(*ast.GenDecl)
-		if !ok || gd.Tok != token.VAR {
-			continue
-		}
-		for _, sp := range gd.Specs {
-			vs := sp.(*ast.ValueSpec)
-			for i, n := range vs.Names {
-				if n.Name == name && i < len(vs.Values) {
-					s := strings.Join(strings.Fields(src(vs.Values[i])), "")
-					return &s
-				}
-			}
-		}
-	}
-	return nil
-}
-
-// strLits: all string literals inside n, in source order.
-func strLits(n ast.Node) []string {
-	res := []string{}
-	if n == nil || isNilNode(n) {
-		return res
-	}
-	ast.Inspect(n, func(x ast.Node) bool {
-		if s, ok := x.(ast.Expr); ok {
-			if v, ok := unq(s); ok {
-				res = append(res, v)
-			}
-		}
-		return true
-	})
-	return res
-}
-
-// selNames: the names X of every selector `pkg.X` inside n (source order, with repetitions).
-func selNames(n ast.Node, pkg string) []string {
-	res := []string{}
-	if n == nil || isNilNode(n) {
-		return res
-	}
-	ast.Inspect(n, func(x ast.Node) bool {
-		if se, ok := x.(*ast.SelectorExpr); ok {
-			if id, ok := se.X.(*ast.Ident); ok && id.Name == pkg {
-				res = append(res, se.Sel.Name)
-			}
-		}
-		return true
-	})
-	return res
-}
-
-// calls: the callee expressions (printed) of every call inside n, in source order.
-func calls(n ast.Node) []string {
-	res := []string{}
-	if n == nil || isNilNode(n) {
-		return res
-	}
-	ast.Inspect(n, func(x ast.Node) bool {
-		if ce, ok := x.(*ast.CallExpr); ok {
-			res = append(res, strings.Join(strings.Fields(src(ce.Fun)), ""))
-		}
-		return true
-	})
-	return res
-}
-
-// returnsOf: printed results of all return statements in n.
-func returnsOf(n ast.Node) []string {
-	res := []string{}
-	if n == nil || isNilNode(n) {
-		return res
-	}
-	ast.Inspect(n, func(x ast.Node) bool {
-		if r, ok := x.(*ast.ReturnStmt); ok {
-			p := []string{}
-			for _, e := range r.Results {
-				p = append(p, src(e))
-			}
-			res = append(res, strings.Join(p, ","))
-		}
-		return true
-	})
-	return res
 }
 
 func gorillaDir() string {
@@ -246,71 +117,1871 @@ func scannerTokenNames() ([]string, []string, bool) {
 	return order, res, len(order) > 0
 }
 
-func extractSan() {
-	g := gen("San")
-	css := parse("pkg/webui/sanitize/css.go")
-	keys, ok := mapKeys(css, "allowedProperties")
-	g.def("allowedProperties", "Option (List (List Nat))", optBytesList(keys, ok), "keys of allowedProperties (css.go), sorted, as bytes")
-	g.def("allowedPropertyNames", "List String", strList(keys), "the same, readable")
-	// the state handlers: every function whose result type is stateHandler
-	handlers := []string{}
-	if css != nil {
-		for _, d := range css.Decls {
-			if fd, ok := d.(*ast.FuncDecl); ok && fd.Type.Results != nil && len(fd.Type.Results.List) == 1 && src(fd.Type.Results.List[0].Type) == "stateHandler" {
-				handlers = append(handlers, fd.Name.Name)
+// =====================================================================================================================
+// Semantic summaries.  A function of the repository is executed SYMBOLICALLY, path by path, and summarised as a table
+//     condition && condition => effect; effect -> outcome
+// in a canonical form that does not depend on spelling or statement layout:
+//   * a local variable is replaced by its DEFINITION (the value it holds on that path), a parameter by $n;
+//   * an imported name is written <last element of the import path>.<Name>, the import paths used are listed in
+//     `import` rows (so the standard library's html and golang.org/x/net/html differ);
+//   * calls of unexported functions of the same package are INLINED (helper extraction does not show), functions
+//     used as values are summarised as tables of their own (F1, F2, … in order of first appearance in the canonical
+//     rows), exported functions and the anchors (functions the verif hooks name) are kept as calls;
+//   * string building is normalised: a + b, append(b, x...), fmt.Sprintf with only %s verbs, string(x) / []byte(x)
+//     conversions and make([]byte, 0, n) all become concatenations of pieces (adjacent literals merged);
+//   * bytes.Buffer / strings.Builder objects are <membuf> (an in-memory sink whose Write cannot fail), Grow is ignored;
+//   * package-level variables are replaced by their initialiser (composite-literal tables by T1, §T2, …);
+//   * EFFECTS are the method calls on objects (tokenizer, writers, buffers, replacers, policies), in execution order;
+//     the result of one is #Method (##Method inside a loop, …); everything else is a pure expression;
+//   * the conditions are decided by enumerating all paths and are then re-expanded into a decision tree over the atoms
+//     in a fixed order (shorter atoms first), `x == K` tests on one subject being one multi-way test: if/else chains,
+//     switches, early returns, flag variables and reordered cases give the same rows;
+//   * a loop is a table of its own (L1, L2, …) over ONE iteration; the variables it carries from one iteration to the
+//     next are @1, @2, … (ordered by their initial value), `@1 := v` is an effect, the outcome is next / exit / return.
+// Anything outside the small statement subset understood here makes the whole summary ["unknown: …"].
+// =====================================================================================================================
+
+type sanV struct {
+	k  string // lit sym q tab fn res carry post loopret field index slice un bin cat call pcall mcall tuple comp raw
+	s  string
+	p  string // import path (q, pcall)
+	a  []*sanV
+	lp *sanLoop
+}
+
+func sanLit(s string) *sanV { return &sanV{k: "lit", s: s} }
+func sanSym(s string) *sanV { return &sanV{k: "sym", s: s} }
+
+var sanMembuf = &sanV{k: "sym", s: "<membuf>"}
+
+// sanPr renders values.  mode 0: final (λ / L / §T numbered in order of first rendering, short package names);
+// mode 1: key (identity: real names, full paths, loop contents); mode 2: sort (λ? L? §T?: independent of spelling).
+type sanPr struct {
+	mode   int
+	fnNum  map[string]int
+	fns    []string
+	lpNum  map[string]int
+	lps    []*sanLoop
+	tabNum map[string]int
+	tabs   []string
+	pkgs   map[string]string // short -> full
+	objNum map[string]int
+	objs   []string
+}
+
+func sanNewPr(mode int) *sanPr {
+	return &sanPr{mode: mode, fnNum: map[string]int{}, lpNum: map[string]int{}, tabNum: map[string]int{}, pkgs: map[string]string{}, objNum: map[string]int{}}
+}
+
+var sanKeyPr = sanNewPr(1)
+var sanSortPr = sanNewPr(2)
+
+func sanKey(v *sanV) string { return sanKeyPr.r(v) }
+
+func (p *sanPr) pkg(path string) string {
+	if p.mode == 1 {
+		return path
+	}
+	short := path
+	if i := strings.LastIndexByte(path, '/'); i >= 0 {
+		short = path[i+1:]
+	}
+	if p.mode == 2 {
+		return short
+	}
+	if full, ok := p.pkgs[short]; ok && full != path {
+		return path
+	}
+	p.pkgs[short] = path
+	return short
+}
+
+func (p *sanPr) loopName(l *sanLoop) string {
+	switch p.mode {
+	case 1:
+		return "L{" + l.key + "}"
+	case 2:
+		return "L?"
+	}
+	n, ok := p.lpNum[l.key]
+	if !ok {
+		n = len(p.lps) + 1
+		p.lpNum[l.key] = n
+		p.lps = append(p.lps, l)
+	}
+	return "L" + strconv.Itoa(n)
+}
+
+func (p *sanPr) list(a []*sanV) string {
+	s := []string{}
+	for _, x := range a {
+		s = append(s, p.r(x))
+	}
+	return strings.Join(s, ", ")
+}
+
+func (p *sanPr) r(v *sanV) string {
+	if v == nil {
+		return ""
+	}
+	switch v.k {
+	case "lit":
+		return strconv.Quote(v.s)
+	case "sym", "res", "carry":
+		return v.s
+	case "q":
+		return p.pkg(v.p) + "." + v.s
+	case "tab":
+		switch p.mode {
+		case 1:
+			return "T{" + v.s + "}"
+		case 2:
+			return "T?"
+		}
+		n, ok := p.tabNum[v.s]
+		if !ok {
+			n = len(p.tabs) + 1
+			p.tabNum[v.s] = n
+			p.tabs = append(p.tabs, v.s)
+		}
+		return "T" + strconv.Itoa(n)
+	case "fn":
+		switch p.mode {
+		case 1:
+			return "F{" + v.s + "}"
+		case 2:
+			return "F?"
+		}
+		n, ok := p.fnNum[v.s]
+		if !ok {
+			n = len(p.fns) + 1
+			p.fnNum[v.s] = n
+			p.fns = append(p.fns, v.s)
+		}
+		return "F" + strconv.Itoa(n)
+	case "post":
+		return p.loopName(v.lp) + "." + v.s
+	case "loopret":
+		return "ret(" + p.loopName(v.lp) + ")"
+	case "field":
+		return p.r(v.a[0]) + "." + v.s
+	case "comp":
+		return p.r(v.a[0]) + "." + v.s
+	case "index":
+		return p.r(v.a[0]) + "[" + p.r(v.a[1]) + "]"
+	case "slice":
+		return p.r(v.a[0]) + "[" + p.r(v.a[1]) + ":" + p.r(v.a[2]) + "]"
+	case "un":
+		return v.s + p.r(v.a[0])
+	case "bin":
+		return "(" + p.r(v.a[0]) + " " + v.s + " " + p.r(v.a[1]) + ")"
+	case "cat":
+		if len(v.a) == 0 {
+			return `""`
+		}
+		s := []string{}
+		for _, x := range v.a {
+			s = append(s, p.r(x))
+		}
+		return strings.Join(s, " ++ ")
+	case "call":
+		return p.r(v.a[0]) + "(" + p.list(v.a[1:]) + ")"
+	case "pcall":
+		if v.p == "" {
+			return v.s + "(" + p.list(v.a) + ")"
+		}
+		return p.pkg(v.p) + "." + v.s + "(" + p.list(v.a) + ")"
+	case "mcall":
+		recv := p.r(v.a[0])
+		if k := v.a[0].k; p.mode == 0 && (k == "pcall" || k == "mcall") { // an object made by a constructor: o1, o2, … (defined in `o1 = …` rows)
+			n, ok := p.objNum[recv]
+			if !ok {
+				n = len(p.objs) + 1
+				p.objNum[recv] = n
+				p.objs = append(p.objs, recv)
+			}
+			recv = "o" + strconv.Itoa(n)
+		}
+		return recv + "." + v.s + "(" + p.list(v.a[1:]) + ")"
+	case "tuple":
+		return "(" + p.list(v.a) + ")"
+	case "raw":
+		return "?{" + v.s + "}"
+	}
+	return "?" + v.k
+}
+
+// sanCat: concatenation with flattening and merging of adjacent literals.
+func sanCat(parts ...*sanV) *sanV {
+	out := []*sanV{}
+	var add func(x *sanV)
+	add = func(x *sanV) {
+		if x.k == "cat" {
+			for _, y := range x.a {
+				add(y)
+			}
+			return
+		}
+		if x.k == "lit" {
+			if x.s == "" {
+				return
+			}
+			if n := len(out); n > 0 && out[n-1].k == "lit" {
+				out[n-1] = sanLit(out[n-1].s + x.s)
+				return
+			}
+		}
+		out = append(out, x)
+	}
+	for _, x := range parts {
+		add(x)
+	}
+	if len(out) == 1 {
+		return out[0]
+	}
+	if len(out) == 0 {
+		return sanLit("")
+	}
+	return &sanV{k: "cat", a: out}
+}
+
+// ---- environment (block scoped) ----
+
+type sanEnv struct{ scopes []map[string]*sanV }
+
+func sanNewEnv() *sanEnv { return &sanEnv{scopes: []map[string]*sanV{{}}} }
+func (e *sanEnv) push()  { e.scopes = append(e.scopes, map[string]*sanV{}) }
+func (e *sanEnv) pop()   { e.scopes = e.scopes[:len(e.scopes)-1] }
+func (e *sanEnv) get(n string) (*sanV, bool) {
+	for i := len(e.scopes) - 1; i >= 0; i-- {
+		if v, ok := e.scopes[i][n]; ok {
+			return v, true
+		}
+	}
+	return nil, false
+}
+func (e *sanEnv) has(n string) bool { _, ok := e.get(n); return ok }
+func (e *sanEnv) def(n string, v *sanV) {
+	e.scopes[len(e.scopes)-1][n] = v
+}
+func (e *sanEnv) set(n string, v *sanV) bool {
+	for i := len(e.scopes) - 1; i >= 0; i-- {
+		if _, ok := e.scopes[i][n]; ok {
+			e.scopes[i][n] = v
+			return true
+		}
+	}
+	return false
+}
+func (e *sanEnv) clone() *sanEnv {
+	c := &sanEnv{}
+	for _, s := range e.scopes {
+		m := map[string]*sanV{}
+		for k, v := range s {
+			m[k] = v
+		}
+		c.scopes = append(c.scopes, m)
+	}
+	return c
+}
+
+// ---- package context ----
+
+type sanPkg struct {
+	files   []*ast.File
+	funcs   map[string]*ast.FuncDecl
+	fileOf  map[*ast.FuncDecl]*ast.File
+	vars    map[string]ast.Expr
+	varFile map[string]*ast.File
+	anchors map[string]bool // same-package functions summarised on their own: kept as calls <name>, never inlined
+	elideRe bool            // regexp.MustCompile("…") is written regexp.MustCompile(<re>) (the expression is a parameter of the model)
+	sums    map[string]*sanSum
+	imps    map[*ast.File]map[string]string
+	lastPr  *sanPr // printer of the last sanPrint (table / function numbering)
+}
+
+func sanLoadPkg(rel string, anchors ...string) *sanPkg {
+	p := &sanPkg{funcs: map[string]*ast.FuncDecl{}, fileOf: map[*ast.FuncDecl]*ast.File{}, vars: map[string]ast.Expr{},
+		varFile: map[string]*ast.File{}, anchors: map[string]bool{}, sums: map[string]*sanSum{}, imps: map[*ast.File]map[string]string{}}
+	for _, a := range anchors {
+		p.anchors[a] = true
+	}
+	ents, err := os.ReadDir(filepath.Join(repo, rel))
+	if err != nil {
+		return p
+	}
+	for _, e := range ents {
+		n := e.Name()
+		if e.IsDir() || !strings.HasSuffix(n, ".go") || strings.HasSuffix(n, "_test.go") {
+			continue
+		}
+		f := parse(filepath.Join(rel, n))
+		if f == nil {
+			continue
+		}
+		p.files = append(p.files, f)
+		im := map[string]string{}
+		for _, is := range f.Imports {
+			path, _ := unq(is.Path)
+			name := path
+			if i := strings.LastIndexByte(path, '/'); i >= 0 {
+				name = path[i+1:]
+			}
+			if is.Name != nil {
+				name = is.Name.Name
+			}
+			im[name] = path
+		}
+		p.imps[f] = im
+		for _, d := range f.Decls {
+			switch x := d.(type) {
+			case *ast.FuncDecl:
+				if x.Recv == nil && x.Body != nil {
+					p.funcs[x.Name.Name] = x
+					p.fileOf[x] = f
+				}
+			case *ast.GenDecl:
+				if x.Tok != token.VAR && x.Tok != token.CONST {
+					continue
+				}
+				for _, sp := range x.Specs {
+					vs := sp.(*ast.ValueSpec)
+					for i, id := range vs.Names {
+						if i < len(vs.Values) && len(vs.Values) == len(vs.Names) {
+							p.vars[id.Name] = vs.Values[i]
+							p.varFile[id.Name] = f
+						}
+					}
+				}
 			}
 		}
 	}
-	g.def("stateHandlers", "List String", strList(handlers), "functions of css.go returning a stateHandler, in source order")
-	for _, h := range []string{"sanitizeStyle", "stateStart", "stateEat", "stateValid"} {
-		fd := fn(css, "", h)
-		g.def(h+"Lits", "List String", strList(strLits(fd)), "string literals of "+h+", in source order")
-		g.def(h+"Types", "List String", strList(selNames(fd, "scanner")), "scanner.X selectors of "+h+", in source order")
-		g.def(h+"Returns", "List String", strList(returnsOf(fd)), "results of the return statements of "+h+", in source order")
-		g.def(h+"Calls", "List String", strList(calls(fd)), "callees of "+h+", in source order")
+	return p
+}
+
+// ---- one symbolic run ----
+
+type sanCond struct {
+	id   string // identity of the variable: subject key (multi-way) or atom key (boolean)
+	sort string
+	x, y *sanV
+	op   string // "==" (y constant: multi-way test on subject x), "eq" (boolean x == y), "<", "atom"
+	k    string // key of y for "=="
+	val  bool
+	rank int // index (in the path) of the last effect whose result the test reads; -1: none
+}
+
+type sanEv struct {
+	k    string // call set loop
+	v    *sanV
+	name string
+	lp   *sanLoop
+}
+
+type sanPath struct {
+	conds []sanCond
+	ev    []sanEv
+	outK  string // return next exit end
+	outV  *sanV
+	key   string
+}
+
+type sanLoop struct {
+	names  []string // carried variables in canonical order
+	syms   []*sanV
+	inits  []*sanV
+	live   []bool
+	tree   *sanNode
+	paths  []*sanPath
+	key    string
+	canEx  bool
+	hasRet bool
+}
+
+type sanFrame struct {
+	env   *sanEnv
+	named []string
+	file  *ast.File
+}
+
+type sanRun struct {
+	p     *sanPkg
+	dec   []bool
+	pos   int
+	conds []sanCond
+	ev    []sanEv
+	depth int
+	inl   []string
+	fail  string
+	cnt   map[string]int
+	pure  bool
+	root  *ast.BlockStmt // body of the function being summarised (a loop directly in it absorbs what follows it)
+}
+
+const (
+	sanNormal = iota
+	sanBreak
+	sanContinue
+	sanReturn
+)
+
+type sanSig struct {
+	k int
+	v *sanV
+}
+
+func (r *sanRun) failf(format string, a ...interface{}) *sanV {
+	if r.fail == "" {
+		r.fail = fmt.Sprintf(format, a...)
 	}
+	return sanSym("?")
+}
+
+func sanConstLike(v *sanV) bool {
+	switch v.k {
+	case "lit", "q":
+		return true
+	case "sym":
+		return v.s == "nil" || v.s == "true" || v.s == "false" || (len(v.s) > 0 && v.s[0] >= '0' && v.s[0] <= '9')
+	}
+	return false
+}
+
+// decide: the value of a condition variable on this path (forks when not yet determined).
+func (r *sanRun) decide(c sanCond) bool {
+	for _, d := range r.conds {
+		if d.id != c.id || d.op != c.op {
+			continue
+		}
+		if c.op != "==" {
+			return d.val
+		}
+		if d.k == c.k {
+			return d.val
+		}
+		if d.val {
+			return false // the subject equals another constant
+		}
+	}
+	c.rank = -1
+	for _, v := range []*sanV{c.x, c.y} {
+		sanWalk(v, func(x *sanV) {
+			if x.k == "res" {
+				for i, e := range r.ev {
+					if e.name == x.s && i > c.rank {
+						c.rank = i
+					}
+				}
+			}
+		})
+	}
+	if r.pos < len(r.dec) {
+		c.val = r.dec[r.pos]
+	} else {
+		c.val = true
+		r.dec = append(r.dec, true)
+	}
+	r.pos++
+	r.conds = append(r.conds, c)
+	return c.val
+}
+
+// truth: the truth value of a (boolean) symbolic value on this path.
+func (r *sanRun) truth(v *sanV) bool {
+	switch v.k {
+	case "sym":
+		if v.s == "true" {
+			return true
+		}
+		if v.s == "false" {
+			return false
+		}
+	case "un":
+		if v.s == "!" {
+			return !r.truth(v.a[0])
+		}
+	case "bin":
+		x, y := v.a[0], v.a[1]
+		switch v.s {
+		case "&&":
+			return r.truth(x) && r.truth(y)
+		case "||":
+			return r.truth(x) || r.truth(y)
+		case "==", "!=":
+			neg := v.s == "!="
+			if sanConstLike(x) && !sanConstLike(y) {
+				x, y = y, x
+			}
+			kx, ky := sanKey(x), sanKey(y)
+			if kx == ky {
+				return !neg
+			}
+			if sanConstLike(x) && sanConstLike(y) {
+				return neg
+			}
+			var res bool
+			if sanConstLike(y) {
+				res = r.decide(sanCond{id: kx, sort: sanSortPr.r(x), x: x, y: y, op: "==", k: ky})
+			} else {
+				if ky < kx {
+					x, y, kx, ky = y, x, ky, kx
+				}
+				res = r.decide(sanCond{id: kx + " == " + ky, sort: sanSortPr.r(x) + " == " + sanSortPr.r(y), x: x, y: y, op: "eq"})
+			}
+			return res != neg
+		case "<", ">", "<=", ">=":
+			neg := v.s == ">=" || v.s == "<="
+			if v.s == ">" || v.s == "<=" {
+				x, y = y, x
+			}
+			srt := sanSortPr.r(x)
+			if sanConstLike(x) {
+				srt = sanSortPr.r(y)
+			}
+			res := r.decide(sanCond{id: sanKey(x) + " < " + sanKey(y), sort: srt, x: x, y: y, op: "<"})
+			return res != neg
+		}
+	}
+	return r.decide(sanCond{id: sanKey(v), sort: sanSortPr.r(v), x: v, op: "atom"})
+}
+
+func (r *sanRun) cond(e ast.Expr, f *sanFrame) bool {
+	switch x := e.(type) {
+	case *ast.ParenExpr:
+		return r.cond(x.X, f)
+	case *ast.UnaryExpr:
+		if x.Op == token.NOT {
+			return !r.cond(x.X, f)
+		}
+	case *ast.BinaryExpr:
+		if x.Op == token.LAND {
+			return r.cond(x.X, f) && r.cond(x.Y, f)
+		}
+		if x.Op == token.LOR {
+			return r.cond(x.X, f) || r.cond(x.Y, f)
+		}
+	}
+	return r.truth(r.eval(e, f))
+}
+
+func (r *sanRun) imp(name string, f *sanFrame) (string, bool) {
+	if f.env.has(name) {
+		return "", false
+	}
+	path, ok := r.p.imps[f.file][name]
+	return path, ok
+}
+
+func sanIsType(e ast.Expr, f *sanFrame, r *sanRun, names ...string) bool {
+	if s, ok := e.(*ast.StarExpr); ok {
+		e = s.X
+	}
+	se, ok := e.(*ast.SelectorExpr)
+	if !ok {
+		return false
+	}
+	id, ok := se.X.(*ast.Ident)
+	if !ok {
+		return false
+	}
+	path, ok := r.imp(id.Name, f)
+	if !ok {
+		return false
+	}
+	for _, n := range names {
+		if path+"."+se.Sel.Name == n {
+			return true
+		}
+	}
+	return false
+}
+
+func sanIsMembufType(e ast.Expr, f *sanFrame, r *sanRun) bool {
+	return sanIsType(e, f, r, "bytes.Buffer", "strings.Builder")
+}
+
+func (r *sanRun) ident(name string, f *sanFrame) *sanV {
+	if v, ok := f.env.get(name); ok {
+		return v
+	}
+	switch name {
+	case "nil", "true", "false":
+		return sanSym(name)
+	}
+	if _, ok := r.p.funcs[name]; ok {
+		return &sanV{k: "fn", s: name}
+	}
+	if init, ok := r.p.vars[name]; ok {
+		if cl, ok := init.(*ast.CompositeLit); ok {
+			if _, isMap := cl.Type.(*ast.MapType); isMap {
+				return &sanV{k: "tab", s: name}
+			}
+		}
+		sub := &sanRun{p: r.p, pure: true, cnt: map[string]int{}, inl: append(append([]string{}, r.inl...), "var "+name)}
+		if len(sub.inl) > 6 {
+			return r.failf("initialiser cycle at %s", name)
+		}
+		v := sub.eval(init, &sanFrame{env: sanNewEnv(), file: r.p.varFile[name]})
+		if sub.fail != "" {
+			return r.failf("%s", sub.fail)
+		}
+		return v
+	}
+	return r.failf("unresolved identifier %s", name)
+}
+
+func (r *sanRun) evals(es []ast.Expr, f *sanFrame) []*sanV {
+	res := []*sanV{}
+	for _, e := range es {
+		res = append(res, r.eval(e, f))
+	}
+	return res
+}
+
+func (r *sanRun) eval(e ast.Expr, f *sanFrame) *sanV {
+	switch x := e.(type) {
+	case *ast.BasicLit:
+		switch x.Kind {
+		case token.STRING:
+			s, _ := strconv.Unquote(x.Value)
+			return sanLit(s)
+		case token.CHAR:
+			s, err := strconv.Unquote(x.Value)
+			if err != nil {
+				return r.failf("char literal %s", x.Value)
+			}
+			return sanLit(s)
+		}
+		return sanSym(x.Value)
+	case *ast.Ident:
+		return r.ident(x.Name, f)
+	case *ast.ParenExpr:
+		return r.eval(x.X, f)
+	case *ast.StarExpr:
+		return r.eval(x.X, f)
+	case *ast.SelectorExpr:
+		if id, ok := x.X.(*ast.Ident); ok {
+			if path, ok := r.imp(id.Name, f); ok {
+				return &sanV{k: "q", p: path, s: x.Sel.Name}
+			}
+		}
+		return &sanV{k: "field", s: x.Sel.Name, a: []*sanV{r.eval(x.X, f)}}
+	case *ast.CallExpr:
+		return r.call(x, f)
+	case *ast.BinaryExpr:
+		a, b := r.eval(x.X, f), r.eval(x.Y, f)
+		if x.Op == token.ADD {
+			return sanCat(a, b)
+		}
+		return &sanV{k: "bin", s: x.Op.String(), a: []*sanV{a, b}}
+	case *ast.UnaryExpr:
+		if x.Op == token.AND {
+			if cl, ok := x.X.(*ast.CompositeLit); ok && len(cl.Elts) == 0 && sanIsMembufType(cl.Type, f, r) {
+				return sanMembuf
+			}
+			if _, ok := x.X.(*ast.Ident); ok {
+				return r.eval(x.X, f) // a pointer to an object stands for the object
+			}
+		}
+		if x.Op == token.NOT || x.Op == token.SUB {
+			return &sanV{k: "un", s: x.Op.String(), a: []*sanV{r.eval(x.X, f)}}
+		}
+	case *ast.IndexExpr:
+		return &sanV{k: "index", a: []*sanV{r.eval(x.X, f), r.eval(x.Index, f)}}
+	case *ast.SliceExpr:
+		if x.Slice3 {
+			break
+		}
+		if x.Low == nil && x.High != nil {
+			if l, ok := x.High.(*ast.BasicLit); ok && l.Value == "0" {
+				return sanLit("") // b[:0]
+			}
+		}
+		lo, hi := sanSym(""), sanSym("")
+		if x.Low != nil {
+			lo = r.eval(x.Low, f)
+		}
+		if x.High != nil {
+			hi = r.eval(x.High, f)
+		}
+		return &sanV{k: "slice", a: []*sanV{r.eval(x.X, f), lo, hi}}
+	case *ast.CompositeLit:
+		if len(x.Elts) == 0 && sanIsMembufType(x.Type, f, r) {
+			return sanMembuf
+		}
+	}
+	return r.failf("expression not understood: %s", strings.Join(strings.Fields(src(e)), " "))
+}
+
+func (r *sanRun) fresh(m string) string {
+	base := strings.Repeat("#", r.depth+1) + m
+	r.cnt[base]++
+	if n := r.cnt[base]; n > 1 {
+		return base + "'" + strconv.Itoa(n)
+	}
+	return base
+}
+
+func (r *sanRun) event(v *sanV, m string) *sanV {
+	name := r.fresh(m)
+	r.ev = append(r.ev, sanEv{k: "call", v: v, name: name})
+	return &sanV{k: "res", s: name}
+}
+
+func (r *sanRun) call(ce *ast.CallExpr, f *sanFrame) *sanV {
+	switch fun := ce.Fun.(type) {
+	case *ast.ParenExpr:
+		return r.call(&ast.CallExpr{Fun: fun.X, Args: ce.Args, Ellipsis: ce.Ellipsis}, f)
+	case *ast.ArrayType:
+		if len(ce.Args) == 1 { // []byte(x)
+			return r.eval(ce.Args[0], f)
+		}
+	case *ast.Ident:
+		if fv, ok := f.env.get(fun.Name); ok { // a function held in a local variable
+			args := append([]*sanV{fv}, r.evals(ce.Args, f)...)
+			v := &sanV{k: "call", a: args}
+			if r.pure {
+				return v
+			}
+			return r.event(v, "call")
+		}
+		switch fun.Name {
+		case "string":
+			if len(ce.Args) == 1 {
+				return r.eval(ce.Args[0], f)
+			}
+		case "append":
+			if len(ce.Args) == 0 {
+				break
+			}
+			parts := r.evals(ce.Args, f)
+			return sanCat(parts...)
+		case "make":
+			if len(ce.Args) >= 2 {
+				if l, ok := ce.Args[1].(*ast.BasicLit); ok && l.Value == "0" {
+					return sanLit("")
+				}
+			}
+		case "new":
+			if len(ce.Args) == 1 && sanIsMembufType(ce.Args[0], f, r) {
+				return sanMembuf
+			}
+		case "len", "cap", "min", "max":
+			return &sanV{k: "pcall", s: fun.Name, a: r.evals(ce.Args, f)}
+		}
+		if fd, ok := r.p.funcs[fun.Name]; ok {
+			if ce.Ellipsis != token.NoPos {
+				break
+			}
+			args := r.evals(ce.Args, f)
+			if r.p.anchors[fun.Name] {
+				return &sanV{k: "pcall", s: "<" + fun.Name + ">", a: args}
+			}
+			if ast.IsExported(fun.Name) {
+				return &sanV{k: "pcall", s: fun.Name, a: args}
+			}
+			return r.inline(fd, args)
+		}
+	case *ast.SelectorExpr:
+		if id, ok := fun.X.(*ast.Ident); ok {
+			if path, ok := r.imp(id.Name, f); ok {
+				if ce.Ellipsis != token.NoPos {
+					break
+				}
+				args := r.evals(ce.Args, f)
+				full := path + "." + fun.Sel.Name
+				if full == "fmt.Sprintf" && len(args) > 0 && args[0].k == "lit" {
+					if v := sanSprintf(args[0].s, args[1:]); v != nil {
+						return v
+					}
+				}
+				if full == "regexp.MustCompile" && r.p.elideRe && len(args) == 1 && args[0].k == "lit" {
+					args = []*sanV{sanSym("<re>")}
+				}
+				if (full == "bytes.NewBuffer" || full == "bytes.NewBufferString") && len(args) == 1 && (sanKey(args[0]) == "nil" || sanKey(args[0]) == `""`) {
+					return sanMembuf
+				}
+				return &sanV{k: "pcall", p: path, s: fun.Sel.Name, a: args}
+			}
+		}
+		if ce.Ellipsis != token.NoPos {
+			break
+		}
+		recv := r.eval(fun.X, f)
+		v := &sanV{k: "mcall", s: fun.Sel.Name, a: append([]*sanV{recv}, r.evals(ce.Args, f)...)}
+		if _, isField := fun.X.(*ast.SelectorExpr); isField || r.pure {
+			return v // an accessor of a field value (t.Type.String()), or an initialiser
+		}
+		if recv == sanMembuf && fun.Sel.Name == "Grow" {
+			return sanSym("_")
+		}
+		return r.event(v, fun.Sel.Name)
+	}
+	return r.failf("call not understood: %s", strings.Join(strings.Fields(src(ce)), " "))
+}
+
+// sanSprintf: fmt.Sprintf with %s verbs only is a concatenation.
+func sanSprintf(format string, args []*sanV) *sanV {
+	parts := []*sanV{}
+	for {
+		i := strings.IndexByte(format, '%')
+		if i < 0 {
+			break
+		}
+		if i+1 >= len(format) {
+			return nil
+		}
+		parts = append(parts, sanLit(format[:i]))
+		switch format[i+1] {
+		case '%':
+			parts = append(parts, sanLit("%"))
+		case 's':
+			if len(args) == 0 {
+				return nil
+			}
+			parts = append(parts, args[0])
+			args = args[1:]
+		default:
+			return nil
+		}
+		format = format[i+2:]
+	}
+	if len(args) != 0 {
+		return nil
+	}
+	parts = append(parts, sanLit(format))
+	return sanCat(parts...)
+}
+
+// ---- statements ----
+
+func sanZero(t ast.Expr, f *sanFrame, r *sanRun) *sanV {
+	if sanIsMembufType(t, f, r) {
+		return sanMembuf
+	}
+	if id, ok := t.(*ast.Ident); ok {
+		switch id.Name {
+		case "string":
+			return sanLit("")
+		case "bool":
+			return sanSym("false")
+		case "error":
+			return sanSym("nil")
+		case "int", "int64", "int32", "uint", "byte", "rune":
+			return sanSym("0")
+		}
+	}
+	switch t.(type) {
+	case *ast.StarExpr, *ast.InterfaceType, *ast.FuncType, *ast.MapType, *ast.ChanType:
+		return sanSym("nil")
+	case *ast.ArrayType:
+		return sanLit("")
+	}
+	return sanSym("zero")
+}
+
+func (r *sanRun) newFrame(fd *ast.FuncDecl, args []*sanV) *sanFrame {
+	nf := &sanFrame{env: sanNewEnv(), file: r.p.fileOf[fd]}
+	i := 0
+	for _, fl := range fd.Type.Params.List {
+		if _, variadic := fl.Type.(*ast.Ellipsis); variadic || len(fl.Names) == 0 {
+			r.failf("parameters of %s", fd.Name.Name)
+			return nf
+		}
+		for _, n := range fl.Names {
+			if i >= len(args) {
+				r.failf("arity of %s", fd.Name.Name)
+				return nf
+			}
+			nf.env.def(n.Name, args[i])
+			i++
+		}
+	}
+	if i != len(args) {
+		r.failf("arity of %s", fd.Name.Name)
+	}
+	if fd.Type.Results != nil {
+		for _, fl := range fd.Type.Results.List {
+			for _, n := range fl.Names {
+				nf.env.def(n.Name, sanZero(fl.Type, nf, r))
+				nf.named = append(nf.named, n.Name)
+			}
+		}
+	}
+	return nf
+}
+
+func (r *sanRun) inline(fd *ast.FuncDecl, args []*sanV) *sanV {
+	for _, n := range r.inl {
+		if n == fd.Name.Name {
+			return r.failf("recursive helper %s", n)
+		}
+	}
+	if len(r.inl) >= 4 {
+		return r.failf("helpers nested too deeply at %s", fd.Name.Name)
+	}
+	if len(args) == 1 && args[0].k == "tuple" {
+		args = args[0].a
+	}
+	nf := r.newFrame(fd, args)
+	r.inl = append(r.inl, fd.Name.Name)
+	sig := r.block(fd.Body.List, nf)
+	r.inl = r.inl[:len(r.inl)-1]
+	if sig.k == sanReturn && sig.v != nil {
+		return sig.v
+	}
+	return sanSym("_")
+}
+
+func (r *sanRun) block(list []ast.Stmt, f *sanFrame) sanSig {
+	f.env.push()
+	defer f.env.pop()
+	for i, s := range list {
+		if fs, ok := s.(*ast.ForStmt); ok && r.root != nil && r.depth == 0 && len(r.inl) == 1 && len(list) == len(r.root.List) && &list[0] == &r.root.List[0] {
+			// a loop in the body of the summarised function itself: leaving it (break / condition) continues with the
+			// statements after it, so `break` + `return x` after the loop and `return x` inside it give the same rows
+			return r.loop(fs, f, list[i+1:])
+		}
+		if sig := r.stmt(s, f); sig.k != sanNormal {
+			return sig
+		}
+		if r.fail != "" {
+			return sanSig{k: sanReturn, v: sanSym("?")}
+		}
+	}
+	return sanSig{}
+}
+
+func (r *sanRun) assign(lhs []ast.Expr, vals []*sanV, define bool, f *sanFrame) {
+	if len(lhs) > 1 && len(vals) == 1 {
+		v := vals[0]
+		vals = nil
+		for i := range lhs {
+			if v.k == "tuple" && i < len(v.a) {
+				vals = append(vals, v.a[i])
+			} else {
+				vals = append(vals, &sanV{k: "comp", s: strconv.Itoa(i), a: []*sanV{v}})
+			}
+		}
+	}
+	if len(lhs) != len(vals) {
+		r.failf("assignment arity")
+		return
+	}
+	for i, l := range lhs {
+		id, ok := l.(*ast.Ident)
+		if !ok {
+			r.failf("assignment to %s", src(l))
+			return
+		}
+		if id.Name == "_" {
+			continue
+		}
+		if define {
+			if _, here := f.env.scopes[len(f.env.scopes)-1][id.Name]; here {
+				f.env.set(id.Name, vals[i])
+			} else {
+				f.env.def(id.Name, vals[i])
+			}
+		} else if !f.env.set(id.Name, vals[i]) {
+			r.failf("assignment to non-local %s", id.Name)
+		}
+	}
+}
+
+func (r *sanRun) stmt(s ast.Stmt, f *sanFrame) sanSig {
+	switch x := s.(type) {
+	case *ast.EmptyStmt:
+		return sanSig{}
+	case *ast.ExprStmt:
+		if _, ok := x.X.(*ast.CallExpr); ok {
+			r.eval(x.X, f)
+			return sanSig{}
+		}
+	case *ast.BlockStmt:
+		return r.block(x.List, f)
+	case *ast.DeclStmt:
+		gd, ok := x.Decl.(*ast.GenDecl)
+		if !ok || gd.Tok != token.VAR {
+			break
+		}
+		for _, sp := range gd.Specs {
+			vs := sp.(*ast.ValueSpec)
+			for i, n := range vs.Names {
+				switch {
+				case len(vs.Values) == len(vs.Names):
+					f.env.def(n.Name, r.eval(vs.Values[i], f))
+				case len(vs.Values) == 0 && vs.Type != nil:
+					f.env.def(n.Name, sanZero(vs.Type, f, r))
+				default:
+					r.failf("declaration %s", n.Name)
+				}
+			}
+		}
+		return sanSig{}
+	case *ast.AssignStmt:
+		switch x.Tok {
+		case token.DEFINE, token.ASSIGN:
+			var vals []*sanV
+			if len(x.Rhs) == 1 && len(x.Lhs) == 2 {
+				if ix, ok := x.Rhs[0].(*ast.IndexExpr); ok { // v, ok := m[k]
+					m, k := r.eval(ix.X, f), r.eval(ix.Index, f)
+					vals = []*sanV{{k: "index", a: []*sanV{m, k}}, {k: "pcall", s: "has", a: []*sanV{m, k}}}
+				}
+			}
+			if vals == nil {
+				vals = r.evals(x.Rhs, f)
+			}
+			r.assign(x.Lhs, vals, x.Tok == token.DEFINE, f)
+			return sanSig{}
+		case token.ADD_ASSIGN:
+			if len(x.Lhs) == 1 && len(x.Rhs) == 1 {
+				r.assign(x.Lhs, []*sanV{sanCat(r.eval(x.Lhs[0], f), r.eval(x.Rhs[0], f))}, false, f)
+				return sanSig{}
+			}
+		}
+	case *ast.ReturnStmt:
+		var v *sanV
+		switch {
+		case len(x.Results) == 1:
+			v = r.eval(x.Results[0], f)
+		case len(x.Results) > 1:
+			v = &sanV{k: "tuple", a: r.evals(x.Results, f)}
+		case len(f.named) == 1:
+			v, _ = f.env.get(f.named[0])
+		case len(f.named) > 1:
+			v = &sanV{k: "tuple"}
+			for _, n := range f.named {
+				nv, _ := f.env.get(n)
+				v.a = append(v.a, nv)
+			}
+		}
+		return sanSig{k: sanReturn, v: v}
+	case *ast.BranchStmt:
+		if x.Label == nil && x.Tok == token.BREAK {
+			return sanSig{k: sanBreak}
+		}
+		if x.Label == nil && x.Tok == token.CONTINUE {
+			return sanSig{k: sanContinue}
+		}
+	case *ast.IfStmt:
+		f.env.push()
+		defer f.env.pop()
+		if x.Init != nil {
+			if sig := r.stmt(x.Init, f); sig.k != sanNormal {
+				return sig
+			}
+		}
+		if r.cond(x.Cond, f) {
+			return r.block(x.Body.List, f)
+		}
+		if x.Else != nil {
+			return r.stmt(x.Else, f)
+		}
+		return sanSig{}
+	case *ast.SwitchStmt:
+		f.env.push()
+		defer f.env.pop()
+		if x.Init != nil {
+			if sig := r.stmt(x.Init, f); sig.k != sanNormal {
+				return sig
+			}
+		}
+		var tag *sanV
+		if x.Tag != nil {
+			tag = r.eval(x.Tag, f)
+		}
+		var chosen, def *ast.CaseClause
+		for _, cs := range x.Body.List {
+			cc := cs.(*ast.CaseClause)
+			if cc.List == nil {
+				def = cc
+				continue
+			}
+			for _, e := range cc.List {
+				var hit bool
+				if tag != nil {
+					hit = r.truth(&sanV{k: "bin", s: "==", a: []*sanV{tag, r.eval(e, f)}})
+				} else {
+					hit = r.cond(e, f)
+				}
+				if hit {
+					chosen = cc
+					break
+				}
+			}
+			if chosen != nil {
+				break
+			}
+		}
+		if chosen == nil {
+			chosen = def
+		}
+		if chosen == nil {
+			return sanSig{}
+		}
+		for _, b := range chosen.Body {
+			if bs, ok := b.(*ast.BranchStmt); ok && bs.Tok == token.FALLTHROUGH {
+				r.failf("fallthrough")
+			}
+		}
+		sig := r.block(chosen.Body, f)
+		if sig.k == sanBreak {
+			return sanSig{}
+		}
+		return sig
+	case *ast.ForStmt:
+		return r.loop(x, f, nil)
+	}
+	r.failf("statement not understood: %s", strings.Join(strings.Fields(src(s)), " "))
+	return sanSig{k: sanReturn, v: sanSym("?")}
+}
+
+// sanAssigned: names assigned (not defined) inside n.
+func sanAssigned(n ast.Node) []string {
+	set := map[string]bool{}
+	ast.Inspect(n, func(x ast.Node) bool {
+		switch s := x.(type) {
+		case *ast.AssignStmt:
+			if s.Tok != token.DEFINE {
+				for _, l := range s.Lhs {
+					if id, ok := l.(*ast.Ident); ok {
+						set[id.Name] = true
+					}
+				}
+			}
+		case *ast.IncDecStmt:
+			if id, ok := s.X.(*ast.Ident); ok {
+				set[id.Name] = true
+			}
+		}
+		return true
+	})
+	res := []string{}
+	for k := range set {
+		res = append(res, k)
+	}
+	sort.Strings(res)
+	return res
+}
+
+// sanEnum: all paths of `body` (re-executed once per decision string).
+func sanEnum(mk func(dec []bool) *sanRun, body func(r *sanRun) (string, *sanV)) ([]*sanPath, string) {
+	paths := []*sanPath{}
+	dec := []bool{}
+	for {
+		r := mk(dec)
+		outK, outV := body(r)
+		if r.fail != "" {
+			return nil, r.fail
+		}
+		paths = append(paths, &sanPath{conds: r.conds, ev: r.ev, outK: outK, outV: outV})
+		if len(paths) > 5000 {
+			return nil, "too many paths"
+		}
+		d := r.dec
+		i := len(d) - 1
+		for i >= 0 && !d[i] {
+			i--
+		}
+		if i < 0 {
+			break
+		}
+		dec = append(append([]bool{}, d[:i]...), false)
+	}
+	return paths, ""
+}
+
+func (r *sanRun) loop(x *ast.ForStmt, f *sanFrame, rest []ast.Stmt) sanSig {
+	f.env.push()
+	defer f.env.pop()
+	if x.Init != nil {
+		if sig := r.stmt(x.Init, f); sig.k != sanNormal {
+			return sig
+		}
+	}
+	lp := &sanLoop{}
+	type cv struct {
+		name string
+		init *sanV
+	}
+	cands := []cv{}
+	for _, n := range sanAssigned(x) {
+		if v, ok := f.env.get(n); ok {
+			cands = append(cands, cv{n, v})
+		}
+	}
+	sort.SliceStable(cands, func(i, j int) bool {
+		a, b := sanSortPr.r(cands[i].init), sanSortPr.r(cands[j].init)
+		if a != b {
+			return a < b
+		}
+		return sanKey(cands[i].init) < sanKey(cands[j].init)
+	})
+	for i, c := range cands {
+		lp.names = append(lp.names, c.name)
+		lp.inits = append(lp.inits, c.init)
+		lp.syms = append(lp.syms, &sanV{k: "carry", s: strings.Repeat("@", r.depth+1) + strconv.Itoa(i+1)})
+	}
+	mk := func(dec []bool) *sanRun {
+		return &sanRun{p: r.p, dec: dec, depth: r.depth + 1, inl: append([]string{}, r.inl...), cnt: map[string]int{}}
+	}
+	paths, fail := sanEnum(mk, func(sr *sanRun) (string, *sanV) {
+		sf := &sanFrame{env: f.env.clone(), named: f.named, file: f.file}
+		for i, n := range lp.names {
+			sf.env.set(n, lp.syms[i])
+		}
+		outK, outV := "next", (*sanV)(nil)
+		if x.Cond != nil && !sr.cond(x.Cond, sf) {
+			outK = "exit"
+		} else {
+			sig := sr.block(x.Body.List, sf)
+			switch sig.k {
+			case sanBreak:
+				outK = "exit"
+			case sanReturn:
+				outK, outV = "return", sig.v
+			default:
+				if x.Post != nil {
+					sr.stmt(x.Post, sf)
+				}
+			}
+		}
+		if outK == "exit" && rest != nil {
+			outK, outV = "return", nil
+			if sig := sr.block(rest, sf); sig.k == sanReturn {
+				outV = sig.v
+			}
+			return outK, outV
+		}
+		if outK == "return" {
+			return outK, outV // what the carried variables hold is dead once the function returns
+		}
+		for i, n := range lp.names {
+			if v, _ := sf.env.get(n); v != nil && sanKey(v) != sanKey(lp.syms[i]) {
+				sr.ev = append(sr.ev, sanEv{k: "set", name: lp.syms[i].s, v: v})
+			}
+		}
+		return outK, outV
+	})
+	if fail != "" {
+		r.failf("%s", fail)
+		return sanSig{k: sanReturn, v: sanSym("?")}
+	}
+	for _, p := range paths {
+		if p.outK == "exit" {
+			lp.canEx = true
+		}
+		if p.outK == "return" {
+			lp.hasRet = true
+		}
+	}
+	// liveness of the carried variables: one that no path ever reads is dropped when the loop cannot be left normally
+	for i := range lp.names {
+		used := false
+		sanWalkPaths(paths, func(v *sanV) {
+			if v.k == "carry" && v.s == lp.syms[i].s {
+				used = true
+			}
+		}, map[*sanLoop]bool{})
+		lp.live = append(lp.live, used || lp.canEx)
+	}
+	for _, p := range paths {
+		ev := []sanEv{}
+		for _, e := range p.ev {
+			keep := true
+			if e.k == "set" {
+				for i := range lp.names {
+					if lp.syms[i].s == e.name && !lp.live[i] {
+						keep = false
+					}
+				}
+			}
+			if keep {
+				ev = append(ev, e)
+			}
+		}
+		p.ev = ev
+	}
+	lp.paths = paths
+	lp.tree = sanBuildTree(paths)
+	lp.key = strings.Join(sanRows(lp.tree, sanKeyPr), "\n")
+	r.ev = append(r.ev, sanEv{k: "loop", lp: lp})
+	for i, n := range lp.names {
+		f.env.set(n, &sanV{k: "post", s: lp.syms[i].s, lp: lp})
+	}
+	ret := &sanV{k: "loopret", lp: lp}
+	if !lp.canEx {
+		return sanSig{k: sanReturn, v: ret}
+	}
+	if lp.hasRet && r.truth(&sanV{k: "pcall", s: "returned", a: []*sanV{ret}}) {
+		return sanSig{k: sanReturn, v: ret}
+	}
+	return sanSig{}
+}
+
+func sanWalk(v *sanV, visit func(v *sanV)) {
+	if v == nil {
+		return
+	}
+	visit(v)
+	for _, x := range v.a {
+		sanWalk(x, visit)
+	}
+}
+
+// sanWalkPaths: every value of the paths (conditions, effects, outcomes), loop tables included.
+func sanWalkPaths(paths []*sanPath, visit func(v *sanV), seen map[*sanLoop]bool) {
+	var walk func(v *sanV)
+	walk = func(v *sanV) {
+		if v == nil {
+			return
+		}
+		visit(v)
+		for _, x := range v.a {
+			walk(x)
+		}
+		if v.lp != nil && !seen[v.lp] {
+			seen[v.lp] = true
+			sanWalkPaths(v.lp.paths, visit, seen)
+		}
+	}
+	for _, p := range paths {
+		for _, c := range p.conds {
+			walk(c.x)
+			walk(c.y)
+		}
+		for _, e := range p.ev {
+			walk(e.v)
+			if e.lp != nil {
+				for _, in := range e.lp.inits {
+					walk(in)
+				}
+				if !seen[e.lp] {
+					seen[e.lp] = true
+					sanWalkPaths(e.lp.paths, visit, seen)
+				}
+			}
+		}
+		walk(p.outV)
+	}
+}
+
+// ---- canonical decision tree ----
+
+type sanGroup struct {
+	ks    []*sanV
+	child *sanNode
+}
+
+type sanNode struct {
+	leaf   *sanPath
+	c      sanCond // the variable tested
+	t, f   *sanNode
+	groups []sanGroup
+	other  *sanNode
+	key    string
+}
+
+func sanEvKey(e sanEv, pr *sanPr) string {
+	switch e.k {
+	case "set":
+		return e.name + " := " + pr.r(e.v)
+	case "loop":
+		s := []string{}
+		for i := range e.lp.names {
+			if e.lp.live[i] {
+				s = append(s, e.lp.syms[i].s+" = "+pr.r(e.lp.inits[i]))
+			}
+		}
+		return "loop " + pr.loopName(e.lp) + "(" + strings.Join(s, "; ") + ")"
+	}
+	return pr.r(e.v)
+}
+
+func sanLeafKey(p *sanPath, pr *sanPr) string {
+	s := []string{}
+	for _, e := range p.ev {
+		s = append(s, sanEvKey(e, pr))
+	}
+	evs := "-"
+	if len(s) > 0 {
+		evs = strings.Join(s, "; ")
+	}
+	out := p.outK
+	if p.outV != nil {
+		out += " " + pr.r(p.outV)
+	}
+	return evs + " -> " + out
+}
+
+type sanAssign map[string]string // variable id -> "T" / "F" (boolean) or key of the constant / "\x00other" (multi-way)
+
+func sanCompatible(p *sanPath, as sanAssign) bool {
+	for _, c := range p.conds {
+		a, ok := as[c.op+"\x01"+c.id]
+		if !ok {
+			continue
+		}
+		if c.op == "==" {
+			if (a == c.k) != c.val {
+				return false
+			}
+		} else if (a == "T") != c.val {
+			return false
+		}
+	}
+	return true
+}
+
+func sanBuildTree(paths []*sanPath) *sanNode {
+	for _, p := range paths {
+		p.key = sanLeafKey(p, sanKeyPr)
+	}
+	// the variables, in canonical order: shorter first (a test that depends on another one contains it)
+	vars := []sanCond{}
+	seen := map[string]int{}
+	for _, p := range paths {
+		for _, c := range p.conds {
+			id := c.op + "\x01" + c.id
+			if i, ok := seen[id]; !ok {
+				seen[id] = len(vars)
+				vars = append(vars, c)
+			} else if c.rank < vars[i].rank {
+				vars[i].rank = c.rank
+			}
+		}
+	}
+	sort.SliceStable(vars, func(i, j int) bool {
+		a, b := vars[i], vars[j]
+		if a.rank != b.rank {
+			return a.rank < b.rank
+		}
+		if len(a.sort) != len(b.sort) {
+			return len(a.sort) < len(b.sort)
+		}
+		if a.sort != b.sort {
+			return a.sort < b.sort
+		}
+		return a.id < b.id
+	})
+	var build func(as sanAssign, vars []sanCond, paths []*sanPath) *sanNode
+	with := func(as sanAssign, id, v string) sanAssign {
+		n := sanAssign{}
+		for k, x := range as {
+			n[k] = x
+		}
+		n[id] = v
+		return n
+	}
+	filter := func(paths []*sanPath, as sanAssign) []*sanPath {
+		res := []*sanPath{}
+		for _, p := range paths {
+			if sanCompatible(p, as) {
+				res = append(res, p)
+			}
+		}
+		return res
+	}
+	build = func(as sanAssign, vars []sanCond, paths []*sanPath) *sanNode {
+		if len(paths) == 0 {
+			return &sanNode{key: "unreachable"}
+		}
+		same := true
+		for _, p := range paths {
+			if p.key != paths[0].key {
+				same = false
+			}
+		}
+		if same || len(vars) == 0 {
+			return &sanNode{leaf: paths[0], key: paths[0].key}
+		}
+		v := vars[0]
+		id := v.op + "\x01" + v.id
+		if v.op != "==" {
+			t := build(with(as, id, "T"), vars[1:], filter(paths, with(as, id, "T")))
+			f := build(with(as, id, "F"), vars[1:], filter(paths, with(as, id, "F")))
+			if t.key == f.key {
+				return t
+			}
+			return &sanNode{c: v, t: t, f: f, key: "(" + v.id + " ? " + t.key + " : " + f.key + ")"}
+		}
+		ks := map[string]*sanV{}
+		for _, p := range paths {
+			for _, c := range p.conds {
+				if c.op == "==" && c.id == v.id {
+					ks[c.k] = c.y
+				}
+			}
+		}
+		keys := []string{}
+		for k := range ks {
+			keys = append(keys, k)
+		}
+		sort.Slice(keys, func(i, j int) bool {
+			a, b := sanSortPr.r(ks[keys[i]]), sanSortPr.r(ks[keys[j]])
+			if a != b {
+				return a < b
+			}
+			return keys[i] < keys[j]
+		})
+		n := &sanNode{c: v}
+		n.other = build(with(as, id, "\x00other"), vars[1:], filter(paths, with(as, id, "\x00other")))
+		for _, k := range keys {
+			ch := build(with(as, id, k), vars[1:], filter(paths, with(as, id, k)))
+			if ch.key == n.other.key {
+				continue
+			}
+			placed := false
+			for i := range n.groups {
+				if n.groups[i].child.key == ch.key {
+					n.groups[i].ks = append(n.groups[i].ks, ks[k])
+					placed = true
+				}
+			}
+			if !placed {
+				n.groups = append(n.groups, sanGroup{ks: []*sanV{ks[k]}, child: ch})
+			}
+		}
+		if len(n.groups) == 0 {
+			return n.other
+		}
+		n.key = "(" + v.id
+		for _, g := range n.groups {
+			n.key += " ["
+			for _, k := range g.ks {
+				n.key += sanKey(k) + ","
+			}
+			n.key += "] " + g.child.key
+		}
+		n.key += " else " + n.other.key + ")"
+		return n
+	}
+	return build(sanAssign{}, vars, paths)
+}
+
+func sanRows(n *sanNode, pr *sanPr) []string {
+	rows := []string{}
+	var walk func(n *sanNode, conds []string)
+	walk = func(n *sanNode, conds []string) {
+		ext := func(c string) []string { return append(append([]string{}, conds...), c) }
+		switch {
+		case n.leaf != nil:
+			c := "always"
+			if len(conds) > 0 {
+				c = strings.Join(conds, " && ")
+			}
+			rows = append(rows, c+" => "+sanLeafKey(n.leaf, pr))
+		case n.key == "unreachable":
+		case n.c.op == "==":
+			x := pr.r(n.c.x)
+			all := []string{}
+			for _, g := range n.groups {
+				s := []string{}
+				for _, k := range g.ks {
+					s = append(s, pr.r(k))
+				}
+				all = append(all, s...)
+				if len(s) == 1 {
+					walk(g.child, ext(x+" == "+s[0]))
+				} else {
+					walk(g.child, ext(x+" in {"+strings.Join(s, ", ")+"}"))
+				}
+			}
+			if len(all) == 1 {
+				walk(n.other, ext(x+" != "+all[0]))
+			} else {
+				walk(n.other, ext(x+" notin {"+strings.Join(all, ", ")+"}"))
+			}
+		default:
+			var t, f string
+			switch n.c.op {
+			case "eq":
+				t, f = pr.r(n.c.x)+" == "+pr.r(n.c.y), pr.r(n.c.x)+" != "+pr.r(n.c.y)
+			case "<":
+				t, f = pr.r(n.c.x)+" < "+pr.r(n.c.y), pr.r(n.c.x)+" >= "+pr.r(n.c.y)
+			default:
+				t, f = pr.r(n.c.x), "!"+pr.r(n.c.x)
+			}
+			walk(n.t, ext(t))
+			walk(n.f, ext(f))
+		}
+	}
+	walk(n, nil)
+	return rows
+}
+
+// ---- summaries of whole functions ----
+
+type sanSum struct {
+	paths []*sanPath
+	tree  *sanNode
+	fail  string
+}
+
+func (p *sanPkg) sum(name string) *sanSum {
+	if s, ok := p.sums[name]; ok {
+		return s
+	}
+	s := &sanSum{}
+	p.sums[name] = s
+	fd, ok := p.funcs[name]
+	if !ok {
+		s.fail = "no function " + name
+		return s
+	}
+	args := []*sanV{}
+	for _, fl := range fd.Type.Params.List {
+		for range fl.Names {
+			args = append(args, sanSym("$"+strconv.Itoa(len(args)+1)))
+		}
+	}
+	mk := func(dec []bool) *sanRun {
+		return &sanRun{p: p, dec: dec, cnt: map[string]int{}, inl: []string{name}, root: fd.Body}
+	}
+	s.paths, s.fail = sanEnum(mk, func(r *sanRun) (string, *sanV) {
+		f := r.newFrame(fd, args)
+		sig := r.block(fd.Body.List, f)
+		if sig.k == sanReturn {
+			return "return", sig.v
+		}
+		return "end", nil
+	})
+	if s.fail == "" {
+		s.tree = sanBuildTree(s.paths)
+	}
+	return s
+}
+
+// sanPrint: the rows of `root`, then of the loops and function values it uses (numbered in order of appearance), then
+// the import paths behind the package names used.
+func (p *sanPkg) sanPrint(root string) []string {
+	s := p.sum(root)
+	if s.fail != "" {
+		return []string{"unknown: " + s.fail}
+	}
+	pr := sanNewPr(0)
+	rows := sanRows(s.tree, pr)
+	li, fi := 0, 0
+	for li < len(pr.lps) || fi < len(pr.fns) {
+		if li < len(pr.lps) {
+			l := pr.lps[li]
+			li++
+			for _, r := range sanRows(l.tree, pr) {
+				rows = append(rows, "L"+strconv.Itoa(li)+": "+r)
+			}
+			continue
+		}
+		name := pr.fns[fi]
+		fi++
+		fs := p.sum(name)
+		if fs.fail != "" {
+			return []string{"unknown: " + fs.fail}
+		}
+		for _, r := range sanRows(fs.tree, pr) {
+			rows = append(rows, "F"+strconv.Itoa(fi)+": "+r)
+		}
+	}
+	for i, o := range pr.objs {
+		rows = append(rows, "o"+strconv.Itoa(i+1)+" = "+o)
+	}
+	shorts := []string{}
+	for k := range pr.pkgs {
+		shorts = append(shorts, k)
+	}
+	sort.Strings(shorts)
+	for _, k := range shorts {
+		rows = append(rows, "import "+k+" = "+pr.pkgs[k])
+	}
+	p.lastPr = pr
+	return rows
+}
+
+// sanAll: every value reachable from the summary of root (its loops and the functions it uses as values included).
+func (p *sanPkg) sanAll(root string, visit func(v *sanV)) {
+	done := map[string]bool{}
+	var do func(name string)
+	do = func(name string) {
+		if done[name] {
+			return
+		}
+		done[name] = true
+		s := p.sum(name)
+		if s.fail != "" {
+			return
+		}
+		sanWalkPaths(s.paths, func(v *sanV) {
+			visit(v)
+			if v.k == "fn" {
+				do(v.s)
+			}
+		}, map[*sanLoop]bool{})
+	}
+	do(root)
+}
+
+// sanTable: keys of the map literal of package-level variable `name` (sorted); a value other than true / {} is
+// written key=value.
+func (p *sanPkg) sanTable(name string) ([]string, bool) {
+	cl, ok := p.vars[name].(*ast.CompositeLit)
+	if !ok {
+		return nil, false
+	}
+	keys := []string{}
+	for _, e := range cl.Elts {
+		kv, ok := e.(*ast.KeyValueExpr)
+		if !ok {
+			return nil, false
+		}
+		k, ok := unq(kv.Key)
+		if !ok {
+			return nil, false
+		}
+		if v := strings.Join(strings.Fields(src(kv.Value)), ""); v != "true" && v != "{}" {
+			k += "=" + v
+		}
+		keys = append(keys, k)
+	}
+	sort.Strings(keys)
+	return keys, true
+}
+
+// ---- the facts ----
+
+func sanLitsOf(vs []*sanV) ([]string, bool) {
+	res := []string{}
+	for _, v := range vs {
+		if v.k != "lit" {
+			return nil, false
+		}
+		res = append(res, v.s)
+	}
+	return res, true
+}
+
+func sanUniqueTable(p *sanPkg, root string) (string, bool) {
+	names := map[string]bool{}
+	p.sanAll(root, func(v *sanV) {
+		if v.k == "tab" {
+			names[v.s] = true
+		}
+	})
+	if len(names) != 1 {
+		return "", false
+	}
+	for n := range names {
+		return n, true
+	}
+	return "", false
+}
+
+func extractSan() {
+	g := gen("San")
+	// css.go: sanitizeStyle (anchor: the verif hook names it), its loop and the handlers it reaches as function values
+	cssPkg := sanLoadPkg("pkg/webui/sanitize", "sanitizeStyle")
+	g.def("cssSem", "List String", strList(cssPkg.sanPrint("sanitizeStyle")), "semantic summary of sanitizeStyle (css.go): the scan loop L1 and the state handlers F1 (initial), F2, … as condition => effects -> outcome rows")
+	var keys []string
+	tname, ok := sanUniqueTable(cssPkg, "sanitizeStyle")
+	if ok {
+		keys, ok = cssPkg.sanTable(tname)
+	}
+	g.def("allowedProperties", "Option (List (List Nat))", optBytesList(keys, ok), "keys of the one map literal the handlers consult (T1 of cssSem: allowedProperties of css.go), sorted, as bytes")
+	g.def("allowedPropertyNames", "List String", strList(keys), "the same, readable")
 	order, names, ok := scannerTokenNames()
 	g.def("tokenConsts", "List String", strList(order), "Token* constants of gorilla/css scanner.go in iota order")
 	g.def("tokenNames", "Option (List (List Nat))", optBytesList(names, ok), "tokenNames[c] for each of them, as bytes (what tokenType.String() returns)")
 
-	htm := parse("pkg/webui/sanitize/html.go")
-	g.def("policySrc", "Option String", optStr(varSrc(htm, "policy")), "initialiser of `policy` in html.go, white space removed")
-	g.def("cssSafeSrc", "Option String", optStr(varSrc(htm, "cssSafe")), "initialiser of `cssSafe` in html.go")
-	g.def("htmlCalls", "List String", strList(calls(fn(htm, "", "HTML"))), "callees of sanitize.HTML, in source order")
-	g.def("filterCalls", "List String", strList(calls(fn(htm, "", "styleTagFilter"))), "callees of styleTagFilter, in source order")
-	g.def("filterLits", "List String", strList(strLits(fn(htm, "", "styleTagFilter"))), "string literals of styleTagFilter")
-
-	hl := parse("pkg/server/web/helpers.go")
-	var t2h ast.Node = &ast.BlockStmt{}
-	if f := fn(hl, "", "TextToHTML"); f != nil {
-		t2h = f
-	}
-	g.def("textToHTMLCalls", "List String", strList(calls(t2h)), "callees of TextToHTML, in source order")
-	tl := strLits(t2h)
-	g.def("textToHTMLLits", "List (List Nat)", sanBytesList(tl), "string literals of TextToHTML (the replacer's arguments), as bytes")
-	rf := "?"
-	ast.Inspect(t2h, func(x ast.Node) bool {
-		if ce, ok := x.(*ast.CallExpr); ok && t2h != nil && src(ce.Fun) == "urlRE.ReplaceAllStringFunc" && len(ce.Args) == 2 {
-			rf = src(ce.Args[1])
+	// helpers.go: TextToHTML with the function it hands to ReplaceAllStringFunc (F1), and WrapURL (exported) with linkable inlined
+	web := sanLoadPkg("pkg/server/web")
+	web.elideRe = true // urlRE is a parameter of the model (its matches are oracle fields), the expression is not pinned here
+	g.def("textSem", "List String", strList(web.sanPrint("TextToHTML")), "semantic summary of TextToHTML (helpers.go); F1 is the function applied to each match of urlRE")
+	g.def("wrapURLSem", "List String", strList(web.sanPrint("WrapURL")), "semantic summary of WrapURL (helpers.go), unexported helpers inlined; T1 is the scheme table")
+	var repl, partials, wrapLits, delims []string
+	replOK, delimOK := false, false
+	web.sanAll("TextToHTML", func(v *sanV) {
+		if v.k == "mcall" && v.s == "Replace" && v.a[0].k == "pcall" && v.a[0].p == "strings" && v.a[0].s == "NewReplacer" {
+			if l, ok := sanLitsOf(v.a[0].a); ok && repl == nil {
+				repl, replOK = l, true
+			} else {
+				replOK = false
+			}
 		}
-		return true
 	})
-	g.def("textToHTMLReplaceFunc", "String", leanStr(rf), "second argument of urlRE.ReplaceAllStringFunc in TextToHTML")
-	wm := fn(hl, "", "wrapMatch")
-	g.def("wrapMatchLits", "List (List Nat)", sanBytesList(strLits(wm)), "string literals of wrapMatch (the case list), as bytes")
-	g.def("wrapMatchCalls", "List String", strList(calls(wm)), "callees of wrapMatch, in source order")
-	g.def("wrapMatchReturns", "List String", strList(returnsOf(wm)), "results of wrapMatch's return statements")
-	wu := fn(hl, "", "WrapURL")
-	g.def("wrapURLCalls", "List String", strList(calls(wu)), "callees of WrapURL, in source order")
-	g.def("wrapURLLits", "List (List Nat)", sanBytesList(strLits(wu)), "string literals of WrapURL, as bytes")
-	g.def("wrapURLReturns", "List String", strList(returnsOf(wu)), "results of WrapURL's return statements")
-	lk := fn(hl, "", "linkable")
-	g.def("linkableLits", "List (List Nat)", sanBytesList(strLits(lk)), "string literals of linkable, as bytes")
-	lsrc := ""
-	if lk != nil {
-		lsrc = strings.Join(strings.Fields(src(lk.Body)), " ")
+	set := map[string]bool{}
+	if s := web.sum("TextToHTML"); s.fail == "" {
+		for _, name := range sanFnValues(web, "TextToHTML") {
+			if fs := web.sum(name); fs.fail == "" {
+				for _, p := range fs.paths {
+					for _, c := range p.conds {
+						if c.op == "==" && c.y.k == "lit" && !set[c.y.s] {
+							set[c.y.s] = true
+							partials = append(partials, c.y.s)
+						}
+					}
+				}
+			}
+		}
 	}
-	g.def("linkableSrc", "String", leanStr(lsrc), "body of linkable, printed with single spaces")
-	sk, ok := mapKeys(hl, "linkSchemes")
-	g.def("linkSchemes", "Option (List (List Nat))", optBytesList(sk, ok), "keys of linkSchemes (helpers.go), sorted, as bytes")
+	sort.Strings(partials)
+	web.sanAll("WrapURL", func(v *sanV) {
+		if v.k == "pcall" && v.p == "strings" && v.s == "IndexAny" && len(v.a) == 2 && v.a[1].k == "lit" {
+			if delims == nil || (len(delims) == 1 && delims[0] == v.a[1].s) {
+				delims, delimOK = []string{v.a[1].s}, true
+			} else {
+				delimOK = false
+			}
+		}
+	})
+	if s := web.sum("WrapURL"); s.fail == "" {
+		// the anchor: the one returned concatenation with more than one piece; its literal pieces in order, after the
+		// literal arguments of the strings.ReplaceAll inside it
+		seen := map[string]bool{}
+		for _, p := range s.paths {
+			if p.outV == nil || p.outV.k != "cat" || seen[sanKey(p.outV)] {
+				continue
+			}
+			seen[sanKey(p.outV)] = true
+			for _, piece := range p.outV.a {
+				if piece.k == "pcall" && piece.p == "strings" && piece.s == "ReplaceAll" {
+					if l, ok := sanLitsOf(piece.a[1:]); ok {
+						wrapLits = append(wrapLits, l...)
+					}
+				}
+			}
+			for _, piece := range p.outV.a {
+				if piece.k == "lit" {
+					wrapLits = append(wrapLits, piece.s)
+				}
+			}
+		}
+	}
+	if !replOK {
+		repl = []string{"?"}
+	}
+	if !delimOK {
+		delims = []string{}
+	}
+	g.def("replacerArgs", "List (List Nat)", sanBytesList(repl), "arguments of the strings.NewReplacer whose Replace ends TextToHTML (old, new, old, new, …: the order is the priority), as bytes")
+	g.def("wrapMatchLits", "List (List Nat)", sanBytesList(partials), "the constants the match function (F1 of textSem) compares the tail of a match with, sorted, as bytes")
+	g.def("wrapURLLits", "List (List Nat)", sanBytesList(wrapLits), "WrapURL's anchor: the literal arguments of strings.ReplaceAll (old, new), then the literal pieces of the returned concatenation in order, as bytes")
+	g.def("linkableLits", "List (List Nat)", sanBytesList(delims), "the literal second argument of strings.IndexAny in WrapURL (helpers inlined), as bytes")
+	var sk []string
+	tname, ok = sanUniqueTable(web, "WrapURL")
+	if ok {
+		sk, ok = web.sanTable(tname)
+	}
+	g.def("linkSchemes", "Option (List (List Nat))", optBytesList(sk, ok), "keys of the one map literal WrapURL consults (T1 of wrapURLSem: linkSchemes of helpers.go), sorted, as bytes")
+}
+
+// sanFnValues: the functions used as values in the summary of root.
+func sanFnValues(p *sanPkg, root string) []string {
+	set := map[string]bool{}
+	res := []string{}
+	p.sanAll(root, func(v *sanV) {
+		if v.k == "fn" && !set[v.s] {
+			set[v.s] = true
+			res = append(res, v.s)
+		}
+	})
+	return res
 }
